@@ -17,7 +17,7 @@ import z3
 VERIF = os.path.dirname(os.path.dirname(os.path.abspath(__file__)))
 REPO = os.environ.get('VERIF_REPO', '/repo')
 BUILD = os.path.join(VERIF, 'build')
-EVID = os.path.join(VERIF, 'evidence')
+EVID = os.environ.get('VERIF_EVIDENCE_DIR') or os.path.join(VERIF, 'evidence')     # self-test runs write elsewhere
 NIGHTLY = 'nightly'
 
 
